@@ -332,3 +332,99 @@ def run_nodelist(case):
             stats['releases'] += 1
         compare('after releasing everything')
     return P, stats
+
+
+# ------------------------------------------------------------------------------
+# application threads placing through the same node list at the same time
+#
+@st.composite
+def mt_cases(draw):
+    c = draw(st.sampled_from([2, 4, 4, 8]))
+    g = draw(st.sampled_from([0, 1, 2]))
+    reqs = []
+    for _ in range(draw(st.integers(2, 3))):
+        reqs.append({'n_cores': draw(st.integers(1, c)), 'core_occupation': draw(st.sampled_from([1.0, 1.0, 0.5])),
+                     'n_gpus': draw(st.integers(0, g)), 'gpu_occupation': draw(st.sampled_from([1.0, 0.5])),
+                     'lfs': draw(st.sampled_from([0, 0, 60])), 'mem': draw(st.sampled_from([0, 0, 70])),
+                     'n_slots': draw(st.integers(1, 2))})
+    return {'kind': 'nodelist_mt', 'n': draw(st.integers(1, 3)), 'c': c, 'g': g, 'lfs': 100, 'mem': 128,
+            'reqs': reqs, 'sched': draw(st.lists(st.integers(0, 2), min_size=0, max_size=40))}
+
+
+def run_nodelist_mt(case):
+    """two or three threads call NodeList.find_slots concurrently (the application places tasks
+    from its main thread and from callbacks); thread switches happen where a node lock is taken
+    or given up.  -> problems [(prop, sig, msg)]"""
+    from .detsched import Baton
+    from .execsim import FakeLock
+    P = []
+    n, c, g = max(1, int(case['n'])), max(1, int(case['c'])), max(0, int(case['g']))
+    raw = [{'name': 'n%02d' % i, 'index': i, 'cores': [rpc.FREE] * c, 'gpus': [rpc.FREE] * g,
+            'lfs': case['lfs'], 'mem': case['mem']} for i in range(n)]
+    nl = NodeList(nodes=[Node(copy.deepcopy(r)) for r in raw])
+    nl.verify()
+    baton = Baton()
+    for node in nl.nodes:
+        node.__lock__ = FakeLock(baton, 'node%d' % node.index, reentrant=True)
+    got = {}
+
+    def worker(k, rrd):
+        def fn():
+            rr = RankRequirements(n_cores=rrd['n_cores'], core_occupation=rrd['core_occupation'],
+                                  n_gpus=rrd['n_gpus'], gpu_occupation=rrd['gpu_occupation'],
+                                  lfs=rrd['lfs'], mem=rrd['mem'])
+            try:
+                got[k] = nl.find_slots(rr, n_slots=max(1, int(rrd.get('n_slots') or 1)))
+            except ValueError:
+                got[k] = None
+        return fn
+
+    names = []
+    for k, rrd in enumerate(case.get('reqs') or []):
+        names.append('app%d' % k)
+        baton.spawn(names[-1], worker(k, rrd))
+    try:
+        sched = list(case.get('sched') or [])
+        steps = 0
+        while steps < 2000:
+            live = [x for x in names if not baton.threads[x].done]
+            if not live:
+                break
+            pick = live[(sched.pop(0) if sched else 0) % len(live)]
+            baton.resume(pick)
+            steps += 1
+        for x in names:
+            ct = baton.threads[x]
+            if ct.done and ct.exc is not None:
+                P.append(('C01', exc_sig('nodelist_mt:find_slots_raised', ct.exc), repr(ct.exc)))
+    finally:
+        try:
+            baton.finish_all()
+        except Exception:
+            pass
+    cores, gpus, lfs, mem = {}, {}, {}, {}
+    for k, slots in got.items():
+        for s in slots or []:
+            for ro in s.cores:
+                cores[(s.node_index, ro.index)] = cores.get((s.node_index, ro.index), 0.0) + ro.occupation
+            for ro in s.gpus:
+                gpus[(s.node_index, ro.index)] = gpus.get((s.node_index, ro.index), 0.0) + ro.occupation
+            lfs[s.node_index] = lfs.get(s.node_index, 0) + s.lfs
+            mem[s.node_index] = mem.get(s.node_index, 0) + s.mem
+    for (i, k), m in sorted(cores.items()):
+        if m > 1.0 + EPS:
+            P.append(('C01', 'nodelist_mt:core_oversubscribed', 'node %d core %d: placements made at the '
+                      'same time sum to %.2f' % (i, k, m)))
+            break
+    for (i, k), m in sorted(gpus.items()):
+        if m > 1.0 + EPS:
+            P.append(('C01', 'nodelist_mt:gpu_oversubscribed', 'node %d gpu %d: %.2f' % (i, k, m)))
+            break
+    for i, v in lfs.items():
+        if v > case['lfs']:
+            P.append(('C01', 'nodelist_mt:lfs_oversubscribed', 'node %d: %d > %d' % (i, v, case['lfs'])))
+    for i, v in mem.items():
+        if v > case['mem']:
+            P.append(('C01', 'nodelist_mt:mem_oversubscribed', 'node %d: %d > %d' % (i, v, case['mem'])))
+    stats = {'granted': sum(1 for v in got.values() if v), 'threads': len(names)}
+    return P, stats
